@@ -141,6 +141,22 @@ def _e_uni_fit(spec, rs, variant):
     return (lambda X: (m.fit(X), m.to_dict())[1]), (x,), {}, None
 
 
+@entry('uni.fit_candidates', ['list_with_failing', 'list_plain'])
+def _e_uni_fit_candidates(spec, rs, variant):
+    from copsim.seams import FailingMarginal
+    from copulas.univariate import Univariate
+    cands = [zoo.load_class(zoo.FAST_UNI[0]), zoo.FAST_UNI[1], zoo.load_class(zoo.FAST_UNI[2])]
+    if variant == 'list_with_failing':
+        cands.insert(1, FailingMarginal(base=zoo.UNI_FAMILIES[2], mode='always', tag='F'))
+    x = vec(rs, 40, 'nd_f8', 0.5, 6.0)
+
+    def call(candidates, X):
+        m = Univariate(candidates=candidates)
+        m.fit(X)
+        return type(m._instance).__name__
+    return call, (cands, x), {}, None
+
+
 @entry('uni.pdf', V1)
 def _e_uni_pdf(spec, rs, variant):
     m = _fitted_uni(spec, rs)
@@ -326,9 +342,19 @@ def _e_datasets(spec, rs, variant):
     return getattr(datasets, name), (int(spec.get('size', 12)), int(spec.get('dseed', 3))), {}, None
 
 
-def _viz_frames(rs, d, n=12):
+def _viz_frames(rs, d, n=12, index='range'):
     real = pd.DataFrame(rs.normal(size=(n, d)), columns=['a', 'b', 'c', 'e'][:d])
     synth = pd.DataFrame(rs.normal(size=(n + 3, d)) + 1.0, columns=['a', 'b', 'c', 'e'][:d])
+    if index == 'filtered':
+        # what a caller gets from data[data.x > 0]: a non-contiguous index
+        real = real.iloc[::2]
+        synth = synth.iloc[1::3]
+    elif index == 'shifted':
+        real.index = real.index + 100
+        synth.index = synth.index + 5
+    elif index == 'labels':
+        real.index = ['r%d' % i for i in range(len(real))]
+        synth.index = ['s%d' % i for i in range(len(synth))]
     return real, synth
 
 
@@ -352,7 +378,7 @@ def _e_scatter(spec, rs, variant):
     from copulas import visualization as viz
     dims = 2 if variant.startswith('2d') else 3
     with_cols = variant.endswith('_columns')
-    real, _ = _viz_frames(rs, dims + (1 if with_cols else 0))
+    real, _ = _viz_frames(rs, dims + (1 if with_cols else 0), index=spec.get('index', 'range'))
     cols = list(real.columns[-dims:]) if with_cols else None
     fn = viz.scatter_2d if dims == 2 else viz.scatter_3d
     want_cols = list(cols) if cols else list(real.columns[:dims])
@@ -367,7 +393,8 @@ def _e_compare(spec, rs, variant):
     from copulas import visualization as viz
     dims = 2 if variant.startswith('2d') else 3
     with_cols = variant.endswith('_columns')
-    real, synth = _viz_frames(rs, dims + (1 if with_cols else 0))
+    real, synth = _viz_frames(rs, dims + (1 if with_cols else 0),
+                              index=spec.get('index', 'range'))
     cols = list(real.columns[-dims:]) if with_cols else None
     fn = viz.compare_2d if dims == 2 else viz.compare_3d
     want_cols = list(cols) if cols else list(real.columns[:dims])
@@ -397,6 +424,7 @@ def _rand_spec(rng):
     return {'cls': rng.choice(UNI), 'biv': rng.choice(zoo.BIV_FAMILIES),
             'vine_type': rng.choice(zoo.VINE_TYPES), 'kde': rng.random() < 0.4,
             'generic': rng.random() < 0.5, 'edges': rng.random() < 0.6,
+            'index': rng.choice(['range', 'filtered', 'shifted', 'labels']),
             'dataset': rng.choice(['sample_bivariate_age_income', 'sample_trivariate_xyz',
                                    'sample_univariate_bimodal', 'sample_univariates',
                                    'sample_univariate_degenerate']),
@@ -417,7 +445,8 @@ def fixed_runs(tier):
             runs.append({'entry': name, 'variant': variant,
                          'spec': {'cls': UNI[(len(runs)) % len(UNI)],
                                   'biv': zoo.BIV_FAMILIES[len(runs) % 3],
-                                  'vine_type': zoo.VINE_TYPES[len(runs) % 3]},
+                                  'vine_type': zoo.VINE_TYPES[len(runs) % 3],
+                                  'index': ['range', 'filtered', 'shifted', 'labels'][len(runs) % 4]},
                          'seed': 100 + len(runs), 'readonly': False, 'ops': []})
     return runs
 
@@ -510,6 +539,8 @@ def execute(run):
         who = zoo.short(run['spec'].get('biv', ''))
     elif name.startswith('vine.'):
         who = run['spec'].get('vine_type', '')
+    elif name.startswith('viz.'):
+        who = run['spec'].get('index', 'range')
     st = '|'.join([name, who, variant, oc[0]])
     ctx.states.add(st)
     ctx.shape.append(st)
